@@ -727,6 +727,9 @@ def path_shapes(ll, cc):
         ('libreoffice-self', 'a/%s/b/%s.po' % (ll, ll)), ('libreoffice-rel', '%s/b/pl_PL.po' % other), ('none-dir', 'a/None/b/%s.po' % ll),
         ('none-dir-lcm', 'None/LC_MESSAGES/../None/%s.po' % ll), ('mo', 'x.mo'), ('mo-ll', '%s.mo' % ll), ('pot', 'po/x.pot'), ('pot-ll', '%s.pot' % ll),
         ('newline.po', 'po/%s\n.po' % ll), ('newline-dir', 'locale/%s\n/LC_MESSAGES/x.po' % ll), ('dots.po', 'po/a/..po'),
+        # the locale directory as the very first component of a relative path, and one level down
+        ('lcm-rel-first', '%s/LC_MESSAGES/x.po' % ll), ('lcm-dot-first', './%s/LC_MESSAGES/x.po' % ll), ('lcm-rel-first-mo', '%s/LC_MESSAGES/x.mo' % llcc),
+        ('lcm-rel-second', 'a/%s/LC_MESSAGES/x.po' % ll), ('lcm-rel-first-other', '%s/LC_MESSAGES/gizmo.po' % other),
     ]
 
 
